@@ -357,7 +357,7 @@ struct Prog {
       }
       break; }
     case 22: { if (o.sz > 4000) { d << "resize(" << 200 << ") [for the dense interplay]"; op = d.str(); o.r.resize(200); o.m.erase(o.m.lower_bound(200), o.m.end()); o.sz = 200; break; }
-      int w = (int) t.range(0, 6);
+      int w = (int) t.range(0, 7);
       Dense_Row dr(o.sz, o.sz + 1); std::vector<Z> dv(o.sz, Z(0));
       auto fill = [&]() { int n = (int) t.range(0, 8); for (int i = 0; i < n && o.sz; ++i) { dimension_type kx = key(o.m, o.sz); dv[kx] = t.range(-3, 3); dr[kx] = Coefficient(dv[kx]); } };
       auto from_dense = [&](Map& m) { m.clear(); for (dimension_type i = 0; i < dv.size(); ++i) if (dv[i] != 0) m[i] = dv[i]; };
@@ -388,6 +388,14 @@ struct Prog {
         if (ranged) linear_combine(dr, o.r, Coefficient(c1), Coefficient(c2), s, e); else linear_combine(dr, o.r, Coefficient(c1), Coefficient(c2));
         for (dimension_type i = 0; i < o.sz; ++i) { Z ex = (i >= s && i < e) ? dv[i] * c1 + getv(o.m, i) * c2 : dv[i];
           ck("row.linear_combine_into_dense", zv(dr[i]) == ex, [&] { std::ostringstream q; q << "dense x[" << i << "] = " << dr[i] << ", expected " << ex << " (was " << dv[i] << ", sparse y[i] = " << getv(o.m, i) << ")"; return q.str(); }); }
+        keep_saved = true; break; }
+      case 6: { // assignment onto a LIVE dense row that is shorter / as long / longer than the sparse one, with or without spare capacity
+        dimension_type dsz = (dimension_type) t.range(0, (long) o.sz + 6), cap = dsz + (dimension_type) t.range(0, 8);
+        Dense_Row dd(dsz, cap); for (dimension_type i = 0; i < dsz; ++i) dd[i] = Coefficient((long) ((i * 7 + 3) % 5) - 2);
+        d << "Dense_Row(size " << dsz << ", capacity " << cap << ", non-zero pattern) = self"; op = d.str();
+        dd = o.r;
+        ck("row.assign_to_dense", dd.size() == o.sz && dd.OK(), [&] { std::ostringstream q; q << "after dense = sparse: size() = " << dd.size() << " (sparse " << o.sz << "), OK() = " << dd.OK(); return q.str(); });
+        for (dimension_type i = 0; i < o.sz && i < dd.size(); ++i) ck("row.assign_to_dense", zv(dd[i]) == getv(o.m, i), [&] { std::ostringstream q; q << "after dense = sparse (dense row had size " << dsz << ", capacity " << cap << "): dense[" << i << "] = " << dd[i] << ", sparse row has " << getv(o.m, i); return q.str(); });
         keep_saved = true; break; }
       default: { fill(); d << "swap(self, Dense_Row)"; op = d.str(); if (t.chance(50)) swap(o.r, dr); else swap(dr, o.r);
         ck("row.swap_dense", dr.size() == o.sz, "dense row has the wrong size after swap(Sparse, Dense)");
